@@ -5,7 +5,7 @@
    the statement is decided on every run by the extracted monitor mon_nodes on the real engine's hook trace. *)
 From Coq Require Import NArith ZArith List Permutation.
 Import ListNotations.
-From JV Require Import Gen.Consts Model.Chess Model.Eval Model.TT Model.Search Model.SearchChess Model.Monitors Model.Abs Proofs.SearchBalance Proofs.SortProofs Proofs.SearchNodes Proofs.ZobristProofs Proofs.GenProofs Proofs.GenOk Proofs.KingsProofs Proofs.MakeGen Proofs.RangeProofs Proofs.NkProofs Proofs.LegalInv Proofs.LegalInvB Proofs.RulesLevel.
+From JV Require Import Gen.Consts Model.Chess Model.Eval Model.TT Model.Search Model.SearchChess Model.Monitors Model.Abs Proofs.SearchBalance Proofs.SortProofs Proofs.SearchNodes Proofs.ZobristProofs Proofs.GenProofs Proofs.GenOk Proofs.KingsProofs Proofs.MakeGen Proofs.RangeProofs Proofs.NkProofs Proofs.LegalInv Proofs.LegalInvB Proofs.RulesLevel Proofs.SearchNodesAll Model.Fen Model.Uci.
 
 Theorem C06_fuel : forall pollp stop_at bypass g depth t rt ri,
   chess_search pollp stop_at bypass g depth t rt ri <> SFuel.
@@ -97,7 +97,31 @@ Definition C06_full : Prop := forall pollp stop_at bypass g depth t hist,
   | SFuel => False
   end.
 
+(* ... for whole searches: every position examined by any iteration of search() from a root satisfying the invariant satisfies it too *)
+Theorem C06_every_position_of_a_whole_search_is_consistent : forall pollp stop_at bypass g depth t rt ri, legal_inv g ->
+  match chess_search pollp stop_at bypass g depth t rt ri with
+  | SDone _ e _ => Forall node_inv (trace e)
+  | SFuel => True
+  end.
+Proof.
+  intros pollp stop_at bypass g depth t rt ri LI.
+  pose proof (search_all_nodes game move generate_moves c_make null_move evaluate (fun g => is_in_check g (white g)) hash c_half100
+    move_eqb mcap c_promo c_hidx c_cap_score NULL_MOVE is_legal pollp stop_at bypass g depth t rt ri) as N.
+  unfold chess_search. destruct (search _ _ _ _ _ _ _ _ _ _ _ _ _ _ _ _ _ g depth t rt ri) as [outs e s|]; [|exact I].
+  unfold TraceOk in N. eapply Forall_impl; [|exact N]. intros ev. destruct ev; cbn; auto. intros R. exact (reach_legal g _ LI R).
+Qed.
+(* ... and for the searches the main loop starts (Model/Uci.v): in a state holding a position that satisfies the invariant -- every state a session of
+   admissible lines reaches, C03_every_session_state_holds_a_legal_position -- a `go` examines only positions that satisfy it *)
+Theorem C06_main_loop_searches_examine_only_consistent_positions : forall extra u depth max_time input, legal_inv (u_game u) ->
+  match session_search extra u depth max_time input with
+  | SDone _ e _ => Forall node_inv (trace e)
+  | SFuel => True
+  end.
+Proof. intros extra u depth max_time input LI. unfold session_search. apply C06_every_position_of_a_whole_search_is_consistent. exact LI. Qed.
+
 Print Assumptions C06_fuel.
+Print Assumptions C06_every_position_of_a_whole_search_is_consistent.
+Print Assumptions C06_main_loop_searches_examine_only_consistent_positions.
 Print Assumptions C06_sort.
 Print Assumptions C06_nodes_reachable.
 Print Assumptions C06_verdict_no_legal_move.
